@@ -36,7 +36,7 @@ def gen_seq(rng):
         r = rng.choice([None, None, 20.0, 3.0])
         f = rng.choice([None, None, 10.0, 33.0])
         s = rng.choice([1, 1, 1, 0])
-        il = rng.choice([None, 0.3, -0.4])
+        il = rng.choice([None, 0.3, -0.4, 0.0])     # an explicit 0 is a value, not a missing argument
         k = rng.random()
         if k < 0.22:
             inc = [rng.choice([0.0, 0.5, 1.0, -0.25, None]), rng.choice([0.0, 0.125, None, -0.3]), rng.choice([0.0, 0.01, None])]
@@ -46,14 +46,14 @@ def gen_seq(rng):
         elif k < 0.44:
             calls.append(('arc_coupler', dy, r, il, s, f))
         elif k < 0.50:
-            calls.append(('arc_mzi', dy, r, il, rng.choice([None, 0.6]), s, f))
+            calls.append(('arc_mzi', dy, r, il, rng.choice([None, 0.6, 0.0]), s, f))
         elif k < 0.62:
             which = rng.choice(['sin_bridge', 'sin_bend', 'sin_comp'])
-            calls.append((which, dy, rng.choice([None, 0.01, -0.02]), rng.choice([None, None, 1.5]), r, s, f))
+            calls.append((which, dy, rng.choice([None, 0.01, -0.02, 0.0]), rng.choice([None, None, 1.5]), r, s, f))
         elif k < 0.70:
             calls.append(('sin_coupler', dy, r, il, s, f))
         elif k < 0.76:
-            calls.append(('sin_mzi', dy, r, il, rng.choice([None, 0.6]), s, f))
+            calls.append(('sin_mzi', dy, r, il, rng.choice([None, 0.6, 0.0]), s, f))
         elif k < 0.88:
             calls.append(('spline', dy, rng.choice([0.0, 0.02, -0.01]), rng.choice([None, 1.5]), r, s, f))
         else:
